@@ -666,7 +666,20 @@ def list_method(I, ref, r, name, args, kwargs):
         return NONE
     if name == "extend":
         I.fire("container_write", ref)
-        for x in I.iterate_concrete(args[0]):
+        src = I.force(args[0])
+        if isinstance(src, VRef) and src.kind == "list" and not run.rec(src.oid).concrete:
+            # extending by a symbolic list: the receiver becomes the concatenation -- the length adds up; positions, membership and counters of the
+            # result are forgotten (abstraction), element-wise facts common to both stay
+            sr = run.rec(src.oid)
+            nlen = (z3.IntVal(len(r.items)) if r.concrete else r.length) + sr.length
+            nr = ListRec(None, nlen, sr.elem if (r.concrete and not r.items) or (not r.concrete and r.elem == sr.elem) else ("any",), None,
+                         sym=run.fresh_name(f"{sr.sym}#extended"))
+            nr.preds = list(sr.preds) if (r.concrete and not r.items) else [p_ for p_ in getattr(r, "preds", []) if p_ in sr.preds]
+            run.heap[ref.oid] = nr
+            if "list.extend by a symbolic list: only the length is kept" not in run.abstractions:
+                run.abstractions.append("list.extend by a symbolic list: only the length is kept")
+            return NONE
+        for x in I.iterate_concrete(src):
             I.list_append(ref, x)
         return NONE
     if name == "clear":
